@@ -9,6 +9,15 @@ import (
 	"golang.org/x/tools/go/ssa"
 )
 
+// lazyDef is the deferred defining constraint of an engine-internal variable.
+type lazyDef struct {
+	def       *Term
+	src       *Term
+	srcSigned bool
+	widened   bool // float32 -> float64
+	active    bool
+}
+
 // ---- floating point helpers ------------------------------------------------
 
 func fpSort(w int) string {
@@ -415,8 +424,19 @@ func (in *Interp) conv(dst, src types.Type, x Value) Value {
 			if t.op == OpConst {
 				return in.fpConst(w, fpConstFloat(t))
 			}
+			// widening then narrowing gives the float32 back exactly
+			if w == 32 {
+				if ld := in.path.lazy[t]; ld != nil && ld.widened {
+					return ld.src
+				}
+			}
 			r := in.freshVar(w)
-			in.addPC(tt.Raw(0, "(= ("+fpSort(w)+" %0) ("+fpSort(w)+" RNE ("+fpSort(t.w)+" %1)))", r, t))
+			def := tt.Raw(0, "(= ("+fpSort(w)+" %0) ("+fpSort(w)+" RNE ("+fpSort(t.w)+" %1)))", r, t)
+			if w == 64 {
+				in.path.lazy[r] = &lazyDef{def: def, src: t, widened: true}
+				return r
+			}
+			in.addPC(def)
 			return r
 		case !srcFloat && dstFloat:
 			if t.op == OpConst {
@@ -425,16 +445,22 @@ func (in *Interp) conv(dst, src types.Type, x Value) Value {
 				}
 				return in.fpConst(w, float64(t.val))
 			}
+			// The defining constraint of the result is lazy: it is asserted
+			// only if the result ever reaches the solver. The common round
+			// trip int -> float64 -> int of a value within +-2^53 is folded
+			// in the inverse conversion below without any FP reasoning.
 			r := in.freshVar(w)
+			var def *Term
 			if isSigned(src) {
-				in.addPC(tt.Raw(0, "(= ("+fpSort(w)+" %0) ("+fpSort(w)+" RNE %1))", r, t))
+				def = tt.Raw(0, "(= ("+fpSort(w)+" %0) ("+fpSort(w)+" RNE %1))", r, t)
 			} else {
 				uns := "(_ to_fp_unsigned 11 53)"
 				if w == 32 {
 					uns = "(_ to_fp_unsigned 8 24)"
 				}
-				in.addPC(tt.Raw(0, "(= ("+fpSort(w)+" %0) ("+uns+" RNE %1))", r, t))
+				def = tt.Raw(0, "(= ("+fpSort(w)+" %0) ("+uns+" RNE %1))", r, t)
 			}
+			in.path.lazy[r] = &lazyDef{def: def, src: t, srcSigned: isSigned(src)}
 			return r
 		case srcFloat && !dstFloat:
 			if t.op == OpConst {
@@ -452,6 +478,29 @@ func (in *Interp) conv(dst, src types.Type, x Value) Value {
 				}
 				// implementation-defined result: arbitrary
 				return in.freshVar(w)
+			}
+			// float64(int) converted back: exact when the integer fits 53 bits
+			if ld := in.path.lazy[t]; ld != nil && !ld.widened && t.w == 64 && ld.src.w <= w {
+				x := ld.src
+				var fits *Term
+				if ld.srcSigned {
+					x64 := tt.Sext(x, 64)
+					lim := tt.BV(64, 1<<53)
+					fits = tt.And(tt.Cmp(OpSle, tt.BV(64, ^uint64(1<<53)+1), x64), tt.Cmp(OpSle, x64, lim))
+				} else {
+					fits = tt.Cmp(OpUle, tt.Zext(x, 64), tt.BV(64, 1<<53))
+				}
+				// signedness of the target must be able to hold the value
+				sameSign := ld.srcSigned == isSigned(dst) || ld.srcSigned && !isSigned(dst) && false
+				if sameSign && in.branch(fits) {
+					if x.w == w {
+						return x
+					}
+					if ld.srcSigned {
+						return tt.Sext(x, w)
+					}
+					return tt.Zext(x, w)
+				}
 			}
 			// in range => truncation; out of range / NaN => arbitrary value
 			r := in.freshVar(w)
